@@ -9,7 +9,7 @@ from . import core
 CT = (0, 0.25, 0.5, 0.5, 1, 1, 1.5, 2, 3)
 CT_POS = (0.25, 0.5, 0.5, 1, 1, 1.5, 2, 3)
 DELAY = (0, 0, 0.25, 1)
-CAPS = (1, 2, 3, 5, None)
+CAPS = (1, 2, 3, 5, None, 2.5)      # 2.5: a capacity that is not a whole number holds 2 parts
 VALUES = (0, 1, 2.5, 4)
 PRIO_POOL = (2, 3, 4, 5, 6, 7, 8, 9, 10, 11, 1.5, 4.5, 5.5, 6.5, 7.5, 8.5, 9.5, 11.5)
 
@@ -150,6 +150,10 @@ def _gen_spec(rng, profile_name, P):
             d['ctcb'] = [rng.choice(CT) for _ in range(rng.randint(2, 3))]
         d['wo'] = {'a': [rng.choice((0, 0.25, 0.5, 1, 2)), rng.choice((0, 0.5, 1, 1, 2)), rng.choice((0, 1, 3, -2))],
                    'b': [rng.choice((0, 0.5, 1.5, 3)), rng.choice((0, 1, 2, 4)), rng.choice((0, 2, -0.5))]}
+        if rng.random() < 0.15:
+            # the library's own PartProcessor (default work orders: duration, capacity and cost 0)
+            d['plain'] = True
+            d['wo'] = {'a': [0, 0, 0], 'b': [0, 0, 0]}
         if in_group:
             d['in'] = in_group
         return d
